@@ -100,8 +100,8 @@ def c15():
     chk = Check("C15", "model_checking")
     if chk.tier == "thorough":
         exported = export_storage(chk, "MCStorage_txn.cfg", timeout=3000)
-        exported += export_storage(chk, "MCStorage_sim.cfg", simulate=f"num=300 -depth 60 -seed {chk.seed}")
-        limit = 60000
+        exported += export_storage(chk, "MCStorage_sim.cfg", simulate=f"num=40 -depth 40 -seed {chk.seed}")
+        limit = 20000
     else:
         exported = export_storage(chk, "MCStorage_quick.cfg")
         limit = 5000
@@ -142,8 +142,8 @@ def c16():
     chk = Check("C16", "model_checking")
     exported = export_storage(chk, "MCStorage_cache.cfg")
     if chk.tier == "thorough":
-        exported += export_storage(chk, "MCStorage_sim.cfg", simulate=f"num=300 -depth 80 -seed {chk.seed + 1}")
-        limit = 40000
+        exported += export_storage(chk, "MCStorage_sim.cfg", simulate=f"num=40 -depth 50 -seed {chk.seed + 1}")
+        limit = 12000
     else:
         limit = 4000
     vacuity_guard(chk, "MCStorage_cache_pinned.cfg", "cache filled before the database write")
@@ -152,7 +152,7 @@ def c16():
     vacuity_guard(chk, "MCStorage_flush_pinned.cfg", "flush skipped while cache cleaning is disabled")
     fl = [x for x in flush_exported if any(st["op"] == "ext_set" for st in x[1]) and any(st["op"] == "flush" for st in x[1])]
     rnd0 = random.Random(chk.seed + 3)
-    fl = rnd0.sample(fl, min(len(fl), 1500 if chk.tier == "quick" else 20000))
+    fl = rnd0.sample(fl, min(len(fl), 1500 if chk.tier == "quick" else 6000))
     deep = [x for x in exported if x[0] == "MCStorage_sim.cfg"]
     flat = [x for x in exported if x[0] != "MCStorage_sim.cfg"]
     # prefer behaviours that exercise the cache: flush, sleep, rejected writes, reads before writes
@@ -208,7 +208,7 @@ def c16():
     # same keys and a flusher racing with it; at quiescence every read must equal the database
     nb2 = len(bs)
     us = UNIVERSE["MCStorage_sim.cfg"]
-    for k in range(60 if chk.tier == "quick" else 600):
+    for k in range(60 if chk.tier == "quick" else 300):
         writes = [[["node", "n1", e]] for e in (1, 2, 3, 4)] + [[["azks", e]] for e in (1, 2, 3, 4)] + [[["vs", "u", e, e, "p"]] for e in (1, 2, 3)]
         rnd2.shuffle(writes)
         writes.sort(key=lambda r: (r[0][0], r[0][2] if r[0][0] != "azks" else r[0][1]))   # per key kind: ascending versions
